@@ -177,6 +177,13 @@ OnFiles(e) ==
         v9 == IF ~e.replay_ok THEN v8 \cup {"ReplayFromCsvReproduces"} ELSE v8
     IN [s EXCEPT !.viol = v9]
 
+(* C09: limiters observed at every stored instant of the run *)
+OnLimits(e) ==
+    LET v1 == V(s.viol, e.within, "LimitedStateWithinLimits")
+        v2 == IF ~e.pegged_zero THEN v1 \cup {"PeggedStateHasZeroDerivative"} ELSE v1
+        v3 == IF ~e.onehot THEN v2 \cup {"LimiterFlagsOneHot"} ELSE v2
+    IN [s EXCEPT !.viol = v3]
+
 OnOther(e) == s
 
 Consume ==
@@ -193,6 +200,7 @@ Consume ==
                  [] e.e = "run_end"   -> OnRunEnd(e)
                  [] e.e = "compare"   -> OnCompare(e)
                  [] e.e = "files"     -> OnFiles(e)
+                 [] e.e = "limits"    -> OnLimits(e)
                  [] OTHER             -> OnOther(e)
     /\ l' = l + 1
     /\ UNCHANGED tid
